@@ -52,6 +52,10 @@ def generate(ctx):
             schema[0] = (schema[0][0], "int64")
         n = rng.randint(0, 6 if ctx.tier == "quick" else 10)
         rows_g = gen.gen_rows(rng, schema, n, max_len=4, null_p=0.15)
+        if i % 8 == 6 and rng.random() < 0.6:
+            # a NEW nest from a frame in which every row holds records (as many packed rows as frame rows)
+            n = max(n, 2)
+            rows_g = gen.gen_rows(rng, schema, n, max_len=4, null_p=0.15, missing_p=0.0, empty_p=0.0)
         corner = None
         if i % 6 == 5:
             # repeated labels arranged so that the FLAT index of the nest equals the frame index although the rows do not all hold one
@@ -80,7 +84,7 @@ def generate(ctx):
             arr = type(arr)(pa.chunked_array([pa.StructArray.from_arrays([c.field(j) for j in range(len(names))], names=names, mask=c.is_null())
                                               for c in arr.chunked_array.chunks], type=st2))
         kind = ["assign", "assign", "assign", "multi", "multi", "value", "new_nest", "multi_inplace_false"][i % 8]
-        labels, label_kind = gen.gen_labels(rng, n, rng.choice(["range", "unsorted_unique", "str"]) if kind == "new_nest" else None)
+        labels, label_kind = gen.gen_labels(rng, n, rng.choice(["range", "unsorted_unique", "unsorted_unique", "str"]) if kind == "new_nest" else None)
         if corner is not None and len(inp["rows"]) == len(corner):
             if kind == "new_nest":
                 kind = "assign"
